@@ -56,6 +56,24 @@ def gtext(rnd, g):
     return g
 
 
+def device_records(x, out=None):
+    """(StartSize, EndSize, DeltaFormat, deltas) of every Device table in a model fragment."""
+    out = set() if out is None else out
+    if isinstance(x, dict):
+        if "dev" in x and isinstance(x["dev"], dict) and x["dev"]:
+            sizes = sorted(x["dev"])
+            full = tuple(x["dev"].get(p_, 0) for p_ in range(sizes[0], sizes[-1] + 1))
+            fmt = 1 if (min(full) >= -2 and max(full) <= 1) else 2 if (min(full) >= -8 and max(full) <= 7) else 3
+            out.add((sizes[0], sizes[-1], fmt, full))
+        for k, v in x.items():
+            if not (isinstance(k, str) and k.startswith("_")):
+                device_records(v, out)
+    elif isinstance(x, (list, tuple)):
+        for v in x:
+            device_records(v, out)
+    return out
+
+
 class Lk(object):
     """One generated lookup: statements + model + witnesses."""
 
@@ -1117,8 +1135,9 @@ class FeaGen(object):
         kind = self.rnd.choice(ks)
         n0 = len(self._devlog)
         lk = getattr(self, "k_" + kind)(named)
-        lk.devs = list(self._devlog[n0:])
-        lk.mark_devs = list(self.markclass_devs) if kind in ("mbase", "mlig", "mmark") else []
+        # the Device tables that made it into the lookup (rules dropped while generating do not count)
+        lk.devs = sorted(device_records(lk.model))
+        lk.mark_devs = []
         self.stmt_kinds.add(kind)
         return lk
 
@@ -1359,7 +1378,7 @@ class FeaGen(object):
         for table in ("GSUB", "GPOS"):
             for l_ in self.lookups[table]:
                 sure.update(l_.devs)
-        return {"devices_all": sorted(set(self._devlog)), "devices_sure": sorted(sure),
+        return {"devices_all": sorted(sure), "devices_sure": sorted(sure),
                 "fea": fea, "model": model, "tags": tags, "alt_values": alt_values,
                 "lookups": self.lookups, "kinds": sorted(self.stmt_kinds), "langsys": list(self.langsys),
                 "feat": feat}
